@@ -326,6 +326,7 @@ type player struct {
 
 	blockedSeen int
 	runsSeen    int // completed computations when the last message was fed
+	runMark     int // completed computations when the last `set` was played
 }
 
 func (p *player) problem(sig, detail string) {
@@ -640,7 +641,34 @@ func (p *player) play(i int, o Op) {
 		p.closed = true
 		p.sock.Feed([]byte(`{"id": 5, "type": [`))
 	case "set":
+		evs, _ := p.rec.Snapshot()
+		p.runMark = 0
+		for _, e := range evs {
+			if e.Kind == "mwend" {
+				p.runMark++
+			}
+		}
 		p.applySet(o)
+	case "awaitruns":
+		// wait (briefly) until N more computations have completed than when the last `set` was played
+		deadline := time.Now().Add(400 * time.Millisecond)
+		for time.Now().Before(deadline) {
+			evs, ch := p.rec.Snapshot()
+			n := 0
+			for _, e := range evs {
+				if e.Kind == "mwend" {
+					n++
+				}
+			}
+			if n >= p.runMark+o.N {
+				break
+			}
+			select {
+			case <-ch:
+			case <-time.After(20 * time.Millisecond):
+			}
+		}
+		return
 	case "fail":
 		p.w.SetFail(o.Field, o.N, o.Mode)
 		p.rec.add(Event{Kind: "touch", Field: o.Field})
